@@ -429,6 +429,89 @@ pub fn c13enc(args: &[String]) {
             }
         }
     }
+    // chains of literals sections threaded the way compress_block threads them (the returned table replaces the remembered
+    // one): the table the compressor remembers must be the table the decoder holds -- a table is handed back exactly when
+    // its description was written (literals type 2), and the three-block frame decodes to the three literal strings.
+    let flat = |rng: &mut SmallRng, heavy: usize| -> Vec<u8> {
+        // nearly incompressible: 254 values ten times each, two of them `heavy` times (Huffman saves less than its table costs)
+        let mut v: Vec<u8> = Vec::new();
+        for b in 0..254usize {
+            for _ in 0..(if b < 2 { heavy } else { 10 }) {
+                v.push(b as u8);
+            }
+        }
+        for i in (1..v.len()).rev() {
+            let j = rng.gen_range(0..=i);
+            v.swap(i, j);
+        }
+        v
+    };
+    let skew = |rng: &mut SmallRng, alpha: usize, len: usize| -> Vec<u8> {
+        (0..len).map(|_| ((rng.gen::<f64>().powi(3) * alpha as f64) as usize).min(alpha - 1) as u8).collect()
+    };
+    let mut nchains = 0u64;
+    for c0 in 0..6usize {
+        for c1 in 0..6usize {
+            for c2 in 0..6usize {
+                let mk = |rng: &mut SmallRng, c: usize| -> Vec<u8> {
+                    match c {
+                        0 => skew(rng, 17, 3000),
+                        1 => skew(rng, 200, 2500),
+                        2 => flat(rng, 120),
+                        3 => flat(rng, 60),
+                        4 => flat(rng, 11),
+                        _ => skew(rng, 256, 1100),
+                    }
+                };
+                let chain = [mk(&mut rng, c0), mk(&mut rng, c1), mk(&mut rng, c2)];
+                nchains += 1;
+                nrt += 1;
+                let r = std::panic::catch_unwind(std::panic::AssertUnwindSafe(|| {
+                    let mut last = None;
+                    let mut secs: Vec<Vec<u8>> = vec![];
+                    let mut mismatch: Option<String> = None;
+                    for (i, lits) in chain.iter().enumerate() {
+                        let (sec, t) = verif::enc::compress_literals(lits, last.as_ref());
+                        let ty = sec[0] & 3;
+                        if (ty == 2) != t.is_some() && mismatch.is_none() {
+                            mismatch = Some(format!("section {i} of the chain has literals type {ty} but the compressor {} a table to remember (the decoder {})",
+                                if t.is_some() { "takes" } else { "does not take" }, if ty == 2 { "reads a new one" } else { "keeps its old one" }));
+                        }
+                        if let Some(t) = t {
+                            last = Some(t);
+                        }
+                        secs.push(sec);
+                    }
+                    (secs, mismatch)
+                }));
+                let classes = format!("{c0}{c1}{c2}");
+                match r {
+                    Err(p) => rt_bad.push(json!({"len": 0, "alphabet": 0, "chain": classes, "error": format!("compress_literals panicked in a chain: {}", panic_msg(p))})),
+                    Ok((secs, mismatch)) => {
+                        if let Some(m) = mismatch {
+                            rt_bad.push(json!({"len": chain[0].len(), "alphabet": 0, "chain": classes, "error": m}));
+                            continue;
+                        }
+                        let mut f = vec![0x28u8, 0xB5, 0x2F, 0xFD, 0x00, 0x38];
+                        for (i, sec) in secs.iter().enumerate() {
+                            let mut body = sec.clone();
+                            body.push(0);
+                            let h = ((body.len() as u32) << 3) | (2 << 1) | (i == secs.len() - 1) as u32;
+                            f.extend_from_slice(&h.to_le_bytes()[..3]);
+                            f.extend(body);
+                        }
+                        let want: Vec<u8> = chain.iter().flatten().copied().collect();
+                        let (ours, reference) = decode_both(&f, want.len());
+                        if ours.as_ref().map(|o| *o == want).unwrap_or(false) && reference.as_ref().map(|o| *o == want).unwrap_or(false) {
+                            continue;
+                        }
+                        rt_bad.push(json!({"len": want.len(), "alphabet": 0, "chain": classes, "types": secs.iter().map(|s| s[0] & 3).collect::<Vec<_>>(),
+                            "error": format!("chain of three literals sections does not round-trip: ruzstd {:?} libzstd {:?}", ours.as_ref().map(|o| o.len()), reference.as_ref().map(|o| o.len()))}));
+                    }
+                }
+            }
+        }
+    }
     rt_bad.truncate(10);
-    write_json(&args[3], &json!({"histograms": ncases, "rows": kinds, "panics": panics, "roundtrips": nrt, "roundtrip_failures": rt_bad}));
+    write_json(&args[3], &json!({"histograms": ncases, "rows": kinds, "panics": panics, "roundtrips": nrt, "chains": nchains, "roundtrip_failures": rt_bad}));
 }
